@@ -236,7 +236,7 @@ func (c *_cache) doSync(list []metav1.Object) []Event {
 		case accept && current.version < entry.version:
 			events = append(events, NewEvent(EventTypeUpdate, entry.object))
 			c.items[key] = entry
-		case current.version >= entry.version:
+		case found && current.version >= entry.version:
 			if !c.filter.Accept(current.object) {
 				continue
 			}
